@@ -207,6 +207,55 @@ def D33():
     assert len(set(names)) == len(names), f"duplicate class names {names}"
 
 
+def D9():
+    sample = {"list": {"x": 1}, "optional": {"y": [1]}, "field": [{"z": None}], "union": {"q": 1}, "any": {"w": 2},
+              "base_model": {"v": 1}, "dict": {"u": 1}, "literal": {"t": "s"}}
+    for fw in ("pydantic", "dataclasses", "attrs", "base"):
+        code, _ = _pipeline([sample], fw=fw)
+        m = _load(code)
+        assert hasattr(m, "Root")
+
+
+def D10():
+    for fw, sample in (("dataclasses", [{"field": 1, "other": []}, {"other": [1]}]),
+                       ("attrs", [{"attr": 1, "optional": "1", "b": "2"}, {"attr": 2, "optional": "3"}])):
+        code, _ = _pipeline(sample, fw=fw)
+        m = _load(code)
+        assert hasattr(m, "Root")
+
+
+def D28():
+    with tempfile.TemporaryDirectory(dir=os.environ.get("VERIF_TMP")) as d:
+        p = os.path.join(d, "in.json")
+        open(p, "w").write('{"a": "1"}')
+        env = dict(os.environ, PYTHONPATH=os.environ.get("J2M_REPO", "/repo"))
+        o = subprocess.run([sys.executable, "-m", "json_to_models", "-m", "Root", p, "-f", "dataclasses", "--strings-converters"],
+                           capture_output=True, text=True, env=env, cwd=d)
+        assert o.returncode == 0, o.stderr[-300:]
+        assert "convert_strings(" in o.stdout, "--strings-converters was dropped for dataclasses"
+
+
+def D29():
+    samples = [{"a": "true"}, {"a": None}]
+    for fw in ("attrs", "dataclasses"):
+        code, _ = _pipeline(samples, fw=fw, gen_kwargs={"post_init_converters": True})
+        m = _load(code)
+        assert m.Root(a=None).a is None
+        assert m.Root(a="true").a == True  # noqa: E712
+
+
+def D30():
+    with tempfile.TemporaryDirectory(dir=os.environ.get("VERIF_TMP")) as d:
+        p = os.path.join(d, "in.json")
+        open(p, "w").write('{"a": "\\ud800"}')
+        out = os.path.join(d, "out.py")
+        open(out, "w").write("# precious\n")
+        env = dict(os.environ, PYTHONPATH=os.environ.get("J2M_REPO", "/repo"))
+        o = subprocess.run([sys.executable, "-m", "json_to_models", "-m", "Root", p, "-o", out], capture_output=True, text=True, env=env, cwd=d)
+        assert o.returncode != 0, "an un-encodable text was reported as written"
+        assert open(out).read() == "# precious\n", "the existing output file was modified by a failing run"
+
+
 def D13():
     samples = [{"a": None}, {"a": ["1"]}]
     for fw in ("attrs", "dataclasses"):
